@@ -1,11 +1,23 @@
 #!/bin/sh
-# seedtest.sh <patch.diff> <property-id> [tier]: apply a seeded change to /repo, run the check, undo it.
+# seedtest.sh <patch.diff> <property-id> [tier]: run a check against a seeded change.
+# Default: a scratch worktree of /repo under /tmp with the patch applied, used through VERIF_REPO
+# (parallel-safe; evidence/ and replays/ of /repo are left alone; the worktree is removed afterwards).
+# With SEED_IN_REPO=1: apply the patch to /repo itself, run the registered check, undo it.
 P=$(readlink -f "$1"); ID=$2; TIER=${3:-quick}
-cd /repo || exit 2
-git diff --quiet || { echo "/repo has uncommitted changes"; exit 2; }
-git apply "$P" || { echo "patch does not apply"; exit 2; }
-(cd /verif && bin/vcheck "$ID" --tier "$TIER" 2>&1 | tail -12)
+if [ -n "$SEED_IN_REPO" ]; then
+  cd /repo || exit 2
+  git diff --quiet || { echo "/repo has uncommitted changes"; exit 2; }
+  git apply "$P" || { echo "patch does not apply"; exit 2; }
+  (cd /verif && bin/vcheck "$ID" --tier "$TIER" 2>&1 | tail -12)
+  RC=$?
+  git -C /repo checkout -- .
+  git -C /repo status --short
+  exit $RC
+fi
+W=/tmp/seedtest.$$
+git -C /repo worktree add --detach $W HEAD -q || exit 2
+(cd $W && git apply "$P") || { echo "patch does not apply"; git -C /repo worktree remove --force $W; exit 2; }
+(cd /verif && VERIF_REPO=$W bin/vcheck "$ID" --tier "$TIER" 2>&1 | tail -12)
 RC=$?
-git -C /repo checkout -- . 
-git -C /repo status --short
+git -C /repo worktree remove --force $W
 exit $RC
